@@ -238,6 +238,25 @@ impl Property for C10 {
                             check_tiling(name, &c.g, &rings, obs, &ctx);
                         }
                         stitch_check("earcut", &ts, want_area, obs);
+                        // the same polygon with one vertex stored twice (valid: repeated points are allowed) is the same region
+                        {
+                            let sel = crate::engine::splitmix64(p.ext.len() as u64 * 0x9E37 + p.holes.len() as u64 * 31 + p.ext[0].0 as u64);
+                            let mut q = p.clone();
+                            let k = (sel as usize) % (q.ext.len() - 1);
+                            let v = q.ext[k];
+                            q.ext.insert(k, v);
+                            if let geo::Geometry::Polygon(gq) = to_geo(&G::Polygon(q), &c.xf) {
+                                match guard(std::panic::AssertUnwindSafe(|| gq.earcut_triangles())) {
+                                    Ok(ts2) => {
+                                        if let Some(rings2) = tri_rings("earcut[repeated-vertex]", &ts2, obs) {
+                                            let name = if p.holes.len() >= 2 { "earcut[repeated-vertex,holes>=2]" } else { "earcut[repeated-vertex]" };
+                                            check_tiling(name, &c.g, &rings2, obs, &ctx);
+                                        }
+                                    }
+                                    Err(pn) => obs.fail(format!("earcut[repeated-vertex]|panic|{}", pn.site()), format!("{} {}", pn, ctx())),
+                                }
+                            }
+                        }
                         // the iterator and raw forms describe the same triangles
                         if let Ok((it, raw)) = guard(std::panic::AssertUnwindSafe(|| (gp.earcut_triangles_iter().collect::<Vec<_>>(), gp.earcut_triangles_raw()))) {
                             obs.expect(it == ts, "earcut|iter-differs", || ctx());
@@ -335,6 +354,18 @@ impl Property for C10 {
             }
         }
         // ---- monotone subdivision
+        // input class for the known-findings matcher: a vertex of one ring lies strictly inside an edge of another ring (of the
+        // same polygon or of another member): the sweep splits that edge while a merge may be pending on it
+        let mono_cls = {
+            let rings: Vec<&Vec<C>> = polys.iter().flat_map(|p| p.rings()).collect();
+            let touch = rings.iter().enumerate().any(|(i, r)| r[..r.len().saturating_sub(1)].iter().any(|v| {
+                rings.iter().enumerate().any(|(j, q)| i != j && q.windows(2).any(|w| *v != w[0] && *v != w[1] && on_segment_int(w[0], w[1], *v)))
+            }));
+            if touch { "[ring-vertex-inside-an-edge-of-another-ring]" } else { "" }
+        };
+        if !mono_cls.is_empty() {
+            obs.label("monotone:ring-vertex-inside-an-edge-of-another-ring");
+        }
         let mono = guard(std::panic::AssertUnwindSafe(|| match &gg {
             Geometry::Polygon(p) => MonotonicPolygons::from(p.clone()),
             Geometry::MultiPolygon(p) => MonotonicPolygons::from(p.clone()),
@@ -347,14 +378,14 @@ impl Property for C10 {
                 for piece in mp.subdivisions() {
                     let (top, bot) = (piece.top(), piece.bot());
                     let mono_ok = top.0.windows(2).all(|w| w[0].x <= w[1].x) && bot.0.windows(2).all(|w| w[0].x <= w[1].x) && top.0.first() == bot.0.first() && top.0.last() == bot.0.last();
-                    obs.expect(mono_ok, "monotone|piece-not-x-monotone", || format!("top {:?} bot {:?}; {}", top.0, bot.0, ctx()));
+                    obs.expect(mono_ok, &format!("monotone{mono_cls}|piece-not-x-monotone"), || format!("top {:?} bot {:?}; {}", top.0, bot.0, ctx()));
                     let poly: Polygon<f64> = piece.clone().into_polygon();
                     let mut ring = vec![];
                     for q in &poly.exterior().0 {
                         match lookup(*q) {
                             Some(v) => ring.push(v),
                             None => {
-                                obs.fail("monotone|corner-not-a-polygon-vertex", format!("{:?}; {}", q, ctx()));
+                                obs.fail(format!("monotone{mono_cls}|corner-not-a-polygon-vertex"), format!("{:?}; {}", q, ctx()));
                                 ok = false;
                             }
                         }
@@ -362,7 +393,7 @@ impl Property for C10 {
                     rings.push(ring);
                 }
                 if ok {
-                    check_tiling(&format!("monotone:{tn}"), &c.g, &rings, obs, &ctx);
+                    check_tiling(&format!("monotone{mono_cls}:{tn}"), &c.g, &rings, obs, &ctx);
                 }
                 // the free function gives the same pieces; each piece locates points like the polygon it converts into
                 {
@@ -387,13 +418,15 @@ impl Property for C10 {
                         let got = mp.intersects(&c.xf.apply(q));
                         obs.cmp();
                         if got != want {
-                            obs.fail(format!("monotone|intersects(coord)|got={got},want={want}"), format!("q={:?}; {}", q, ctx()));
+                            obs.fail(format!("monotone{mono_cls}|intersects(coord)|got={got},want={want}"), format!("q={:?}; {}", q, ctx()));
                             break;
                         }
                     }
                 }
             }
-            Err(pn) => obs.fail(format!("monotone:{tn}|panic|{}", pn.site()), format!("{} {}", pn, ctx())),
+            Err(pn) => {
+                obs.fail(format!("monotone{mono_cls}:{tn}|panic|{}", pn.site()), format!("{} {}", pn, ctx()))
+            }
         }
         let _ = MultiPolygon::<f64>::new(vec![]);
     }
